@@ -176,11 +176,14 @@ def kernelResidualOp (j : Json) : R Json := do
     let Vh ← matf n n j "vh"
     let U ← matf m m j "u"
     let s ← qArr (← field j "s")
-    let Sg : Matrix (Fin m) (Fin n) ℚ := fun a b => if a.val = b.val then s[a.val]! else 0
+    let Sg : Matrix (Fin m) (Fin n) ℚ := sigmaMat m s.toList
     let T := DMat.ofMatrix (U * Sg)
     let C1 := DMat.ofMatrix (T.toMatrix * Vh - A)
     let C2 := DMat.ofMatrix (Vh * Vhᵀ - 1)
-    res := res ++ [("svd_recon", ofQ (maxAbs C1.toMatrix)), ("svd_orth", ofQ (maxAbs C2.toMatrix))]
+    let C3 := DMat.ofMatrix (U * Uᵀ - 1)
+    let sorted := s.toList.Pairwise (fun a b => b ≤ a) && s.all (fun x => 0 ≤ x)
+    res := res ++ [("svd_recon", ofQ (maxAbs C1.toMatrix)), ("svd_orth", ofQ (max (maxAbs C2.toMatrix) (maxAbs C3.toMatrix))),
+      ("svd_sorted", Json.bool sorted), ("svd_len", Json.num (s.size : Int))]
   | .error _ => pure ()
   return Json.mkObj res
 
